@@ -35,6 +35,8 @@ def _from_export(rec, rnd):
         if h['op'] == 'ext':
             script.append({'t': h['t'], 'm': bool(h['m']), 'tag': h['tag'], 'val': h['tag'],
                            'extra': rnd.choice([0, 0, 1, 2])})
+        elif h['op'] == 'stall':
+            script.append({'t': h['t'], 'stall': h['tag']})
         else:
             stop_at = h['t']
     if stop_at is None:
@@ -52,6 +54,8 @@ def _random(rnd):
     horizon = rnd.randint(4, 20)
     script = [{'t': rnd.randint(0, horizon), 'm': rnd.random() < 0.8, 'tag': rnd.randint(1, 5),
                'val': rnd.randint(0, 3), 'extra': rnd.choice([0, 0, 1, 2])} for _ in range(rnd.randint(1, 6))]
+    if rnd.random() < 0.35:      # the loop is kept busy for a while (longer than an interval, maybe)
+        script.append({'t': rnd.randint(0, horizon), 'stall': rnd.choice([1, 2, 3, 5, 8])})
     script.sort(key=lambda e: e['t'])
     return {'blocks': blocks, 'script': script, 'stop_at': rnd.randint(2, horizon + 6), 'tail': 8}
 
@@ -177,6 +181,17 @@ def execute(stim):
                     await asyncio.sleep(delay)
                 if circuit.error is not None or task.done():
                     break
+                if 'stall' in op:
+                    # let everything that is runnable now run first (the Repeat tasks take what
+                    # was queued and start their timeouts), then keep the loop busy
+                    for _ in range(4):
+                        await asyncio.sleep(0)
+                    if circuit.error is not None or task.done():
+                        break
+                    recs.append({'seq': len(recs), 't': tick(loop.time()), 'dest': -1, 'stall': op['stall'],
+                                 'inside': [], 'data': {}})
+                    loop.advance(op['stall'] * TICK)
+                    continue
                 data = {'tag': op['tag']}
                 if op['extra']:
                     data['xtra'] = op['extra']
@@ -238,7 +253,9 @@ def execute(stim):
             if not stop_done and r['seq'] >= info['stop_seq']:
                 lines.append({'ev': 'stop', 't': info['stop_t']})
                 stop_done = True
-            if r['dest'] == k:
+            if r['dest'] == -1:
+                lines.append({'ev': 'stall', 't': r['t'], 'k': r['stall']})
+            elif r['dest'] == k:
                 fwd = [sent_rec(q) for q in recs if q['dest'] == dcode and q['seq'] > r['seq']
                        and k in q['inside'] and _within(recs, r, q, k)]
                 d = r['data']
